@@ -20,6 +20,10 @@ LOOP_ROUNDS = 3
 NORMAL, RETURN, RAISE, BREAK, CONTINUE = "normal", "return", "raise", "break", "continue"
 
 
+class AbruptRaise(Exception):
+    """Control-flow signal: the callee raised on every path under the current configuration."""
+
+
 class Event:
     __slots__ = ("kind", "node", "fn", "path", "guards", "loops", "handlers", "d")
 
@@ -162,6 +166,8 @@ class Interp:
         elif extra_kw and "**" not in kws:
             ctx.trace.add(Event("bad_kwarg", call_node or fn.node, fn, path, (), (), (), {"names": sorted(extra_kw)}))
         fr = Frame(fn, env, path + (fn.qual,), depth)
+        fr.sites = (saved.sites if saved is not None and hasattr(saved, "sites") else ()) + (
+            (getattr(call_node, "lineno", 0), getattr(call_node, "col_offset", 0)),)
         if saved is not None:
             fr.ctrl = [saved.ctrl[-1]]
             fr.guards = list(saved.guards)
@@ -169,9 +175,11 @@ class Interp:
             fr.handlers = list(saved.handlers)
         self.fr = fr
         try:
-            self.run_body(fn.node.body)
+            status = self.run_body(fn.node.body)
         finally:
             self.fr = saved
+        if status == RAISE and not fr.rets and not fr.yields and not fn.is_generator and saved is not None:
+            raise AbruptRaise(fn.qual)
         if fn.is_generator:
             y = join_all(fr.yields) if fr.yields else Val()
             return Val(tags={"kind": "generator", "elem": y}, data=y.flat().data, shp=y.flat().shp,
@@ -194,7 +202,8 @@ class Interp:
     # ================================================================ heap
     def new_obj(self, kind, node, **attrs):
         fr = self.fr
-        key = (kind, fr.fn.qual, getattr(node, "lineno", 0), getattr(node, "col_offset", 0), fr.path)
+        key = (kind, fr.fn.qual, getattr(node, "lineno", 0), getattr(node, "col_offset", 0), fr.path,
+               getattr(fr, "sites", ()))
         oid = self.ctx.trace.obj_id(key)
         heap = self.ctx.trace.heap
         if oid not in heap:
@@ -370,13 +379,16 @@ class Interp:
         if tv is False:
             return self.ev(e.orelse)
         c = t.flat().deps_all()
-        self.fr.ctrl.append(self.fr.ctrl[-1] | c)
-        self.fr.guards.append((M.norm_text(e.test), True, e.test))
-        a = self.ev(e.body)
-        self.fr.guards[-1] = (M.norm_text(e.test), False, e.test)
-        b = self.ev(e.orelse)
-        self.fr.guards.pop()
-        self.fr.ctrl.pop()
+        fr = self.fr
+        fr.ctrl.append(fr.ctrl[-1] | c)
+        fr.guards.append((M.norm_text(e.test), True, e.test, False))
+        try:
+            a = self.ev(e.body)
+            fr.guards[-1] = (M.norm_text(e.test), False, e.test, False)
+            b = self.ev(e.orelse)
+        finally:
+            fr.guards.pop()
+            fr.ctrl.pop()
         r = join(a, b).with_ctrl(c)
         r.term = mk_term("ifexp", t.term, a.term, b.term)
         return r
@@ -434,6 +446,9 @@ class Interp:
             r.frame = None
             r.fresh = "FRESH"
             return r
+        if isinstance(e.op, ast.USub) and v.tag("cvx"):
+            from .ext_models import cvx_expr
+            return cvx_expr(self, e, "neg", [v], v.shape, v.unit, v.frame)
         if isinstance(e.op, ast.USub):
             r = v.copy(term=mk_term("neg", v.term))
             if v.known and isinstance(v.const, (int, float)) and not isinstance(v.const, bool):
@@ -815,7 +830,11 @@ class Interp:
         if m is None:
             self.ctx.note(f"unmodelled statement {type(s).__name__} at {self.fr.fn.loc(s)}")
             return NORMAL
-        return m(s) or NORMAL
+        try:
+            return m(s) or NORMAL
+        except AbruptRaise:
+            # a callee that raises on every path of this configuration ends the caller's path too
+            return RAISE
 
     def s_Expr(self, s):
         self.ev(s.value)
@@ -909,13 +928,13 @@ class Interp:
         tv = self.truth(t)
         txt = M.norm_text(s.test)
         if tv is True:
-            fr.guards.append((txt, True, s.test))
+            fr.guards.append((txt, True, s.test, True))
             self.refine(s.test, True)
             st = self.run_body(s.body)
             fr.guards.pop()
             return st
         if tv is False:
-            fr.guards.append((txt, False, s.test))
+            fr.guards.append((txt, False, s.test, True))
             self.refine(s.test, False)
             st = self.run_body(s.orelse)
             fr.guards.pop()
@@ -923,12 +942,12 @@ class Interp:
         c = t.flat().deps_all()
         fr.ctrl.append(fr.ctrl[-1] | c)
         env0, self0 = dict(fr.env), dict(self.ctx.selfenv)
-        fr.guards.append((txt, True, s.test))
+        fr.guards.append((txt, True, s.test, False))
         self.refine(s.test, True)
         st1 = self.run_body(s.body)
         env1, self1 = fr.env, self.ctx.selfenv
         fr.env, self.ctx.selfenv = dict(env0), dict(self0)
-        fr.guards[-1] = (txt, False, s.test)
+        fr.guards[-1] = (txt, False, s.test, False)
         self.refine(s.test, False)
         st2 = self.run_body(s.orelse)
         env2, self2 = fr.env, self.ctx.selfenv
@@ -1072,7 +1091,7 @@ class Interp:
             self.ctx.selfenv = join_env(self0, self.ctx.selfenv)
             if h.name:
                 fr.env[h.name] = Val(tags={"kind": "exception"})
-            fr.guards.append(("except " + ",".join(caught), True, h))
+            fr.guards.append(("except " + ",".join(caught), True, h, False))
             sth = self.run_body(h.body)
             fr.guards.pop()
             results.append(sth)
